@@ -1,6 +1,7 @@
 package checks
 
 import (
+	iofs "io/fs"
 	"encoding/binary"
 	"encoding/json"
 	"fmt"
@@ -440,6 +441,14 @@ func (m c15Mut) fields() string {
 	return strings.Join(fs, "+")
 }
 
+// noSeekFile is a device that can be read at any offset but cannot report its size.
+type noSeekFile struct{ st *monstore.Store }
+
+func (n noSeekFile) Stat() (iofs.FileInfo, error)            { return nil, fmt.Errorf("no stat") }
+func (n noSeekFile) Read(p []byte) (int, error)              { return 0, fmt.Errorf("sequential read not supported") }
+func (n noSeekFile) Close() error                            { return nil }
+func (n noSeekFile) ReadAt(p []byte, off int64) (int, error) { return n.st.ReadAt(p, off) }
+
 // c15Eval runs the three readers on one mutated device and applies the oracle.
 func c15Eval(res *core.Result, m c15Mut, env *core.Env) {
 	st, b := c15Apply(m)
@@ -475,6 +484,18 @@ func c15Eval(res *core.Result, m c15Mut, env *core.Env) {
 			return t, nil
 		}},
 		{"partition.Read", func() (partition.Table, error) { return partition.Read(file.New(st, true), b.lss, b.lss) }},
+		// the same device behind a backend that cannot tell its size (an fs.File with ReadAt but without Seek,
+		// as file.New accepts it): the reader has no device size to hold the header's numbers against
+		{"gpt.Read (device of unknown size)", func() (partition.Table, error) {
+			t, err := gpt.Read(file.New(noSeekFile{st}, true), b.lss, b.lss)
+			if err != nil {
+				return nil, err
+			}
+			return t, nil
+		}},
+		{"partition.Read (device of unknown size)", func() (partition.Table, error) {
+			return partition.Read(file.New(noSeekFile{st}, true), b.lss, b.lss)
+		}},
 	}
 	var ms0, ms1 runtime.MemStats
 	for _, c := range calls {
@@ -489,7 +510,11 @@ func c15Eval(res *core.Result, m c15Mut, env *core.Env) {
 			fail("panic:"+pi.Top+":"+pi.Class, "%s panicked: %s", c.name, pi.Msg)
 			continue
 		}
-		if d := ms1.TotalAlloc - ms0.TotalAlloc; d > allocBound {
+		bound := allocBound
+		if strings.Contains(c.name, "unknown size") {
+			bound += 16 << 20 // the ceiling the library documents for the entry array when it cannot learn the device size
+		}
+		if d := ms1.TotalAlloc - ms0.TotalAlloc; d > bound {
 			fail("allocation-out-of-proportion", "%s allocated %d bytes reading a %d-byte device (bound %d)", c.name, d, dev, allocBound)
 		}
 		if rb := st.ReadBytes.Load(); rb > readBound {
@@ -573,7 +598,7 @@ func init() {
 	core.Register(&core.Check{
 		ID:    "C15",
 		Level: "fault_enumeration",
-		Rule: "valid GPT (512/4096-byte sectors, 3/2/128 entries) and MBR base devices written by the library, then: every header field x boundary values {0,1,2,max,max-1,sign bit,old+-1, size*count overflow products, LBAs around the device end and around 2^63/sector} x {primary, backup with primary destroyed} x {CRC left stale, header CRC recomputed, array+header CRC recomputed}; entry fields likewise; all pairs of the size-determining fields (entry count, entry size, array LBA); cooperating triples whose start, end or byte count wraps around 2^64/2^63 back into the device; truncated devices at every structure boundary +-1; every MBR entry/signature byte x 10 values; seeded random images. Each mutated device is read by gpt.Read, mbr.Read and partition.Read in a worker child. Non-trivial = gpt.Read got past the signature check (returned a table, used the backup, or failed later); distinct = distinct mutation",
+		Rule: "valid GPT (512/4096-byte sectors, 3/2/128 entries) and MBR base devices written by the library, then: every header field x boundary values {0,1,2,max,max-1,sign bit,old+-1, size*count overflow products, LBAs around the device end and around 2^63/sector} x {primary, backup with primary destroyed} x {CRC left stale, header CRC recomputed, array+header CRC recomputed}; entry fields likewise; all pairs of the size-determining fields (entry count, entry size, array LBA); cooperating triples whose start, end or byte count wraps around 2^64/2^63 back into the device; truncated devices at every structure boundary +-1; every MBR entry/signature byte x 10 values; seeded random images. Each mutated device is read by gpt.Read, mbr.Read and partition.Read, and by gpt.Read and partition.Read once more through a backend that cannot report its size (no Seek), in a worker child. Non-trivial = gpt.Read got past the signature check (returned a table, used the backup, or failed later); distinct = distinct mutation",
 		Assumptions: []string{"allocation is measured as the runtime.MemStats.TotalAlloc delta around each call; bound 4*deviceSize+1MiB", "read volume bound 8*deviceSize+64KiB", "fatal runtime errors (out of memory) are observed as the death of the worker child, attributed through the case journal", "worker address space capped at 24 GiB (RLIMIT_AS)"},
 		MinSigs:   map[string]int{"quick": 1500, "thorough": 5000},
 		CPUSec:    120,
